@@ -118,6 +118,15 @@ impl<'de> Deserialize<'de> for PNode {
     }
 }
 
+/// `Spanned`'s own equality ignores the range: compare values AND ranges
+fn same_with_spans(a: &SNode, b: &SNode) -> bool {
+    match (a, b) {
+        (SNode::Arr(x), SNode::Arr(y)) => x.len() == y.len() && x.iter().zip(y.iter()).all(|(p, q)| p.span() == q.span() && same_with_spans(p.get_ref(), q.get_ref())),
+        (SNode::Tab(x), SNode::Tab(y)) => x.len() == y.len() && x.iter().zip(y.iter()).all(|((k1, v1), (k2, v2))| k1.span() == k2.span() && k1.get_ref() == k2.get_ref() && v1.span() == v2.span() && same_with_spans(v1.get_ref(), v2.get_ref())),
+        (x, y) => x == y,
+    }
+}
+
 fn strip(n: &SNode) -> PNode {
     match n {
         SNode::Str(s) => PNode::Str(s.clone()),
@@ -458,6 +467,19 @@ pub fn c14_eval(bytes: &[u8], uni: &'static str, acc: &mut Acc) {
                     }
                     let SNode::Tab(st) = s else { return Err("root is not a table through serde".into()) };
                     serde_cmp_table(text, st, im.as_table(), "root")?;
+                    // the other text / byte entry points hand out the same ranges (relative to the caller's buffer)
+                    let via_edit: SNode = toml_edit::de::from_str(text).map_err(|e| format!("toml_edit::de::from_str fails where toml::from_str succeeds: {}", e.message()))?;
+                    if !same_with_spans(&via_edit, s) {
+                        return Err("toml_edit::de::from_str delivers different spans / values than toml::from_str".into());
+                    }
+                    let via_slice: SNode = toml_edit::de::from_slice(text.as_bytes()).map_err(|e| format!("toml_edit::de::from_slice fails where toml::from_str succeeds: {}", e.message()))?;
+                    if !same_with_spans(&via_slice, s) {
+                        return Err(format!("toml_edit::de::from_slice delivers different spans than from_str: {:?} vs {:?}", via_slice, s));
+                    }
+                    let via_doc: SNode = toml_edit::de::from_document(toml_edit::ImDocument::parse(text.to_string()).map_err(|e| e.message().to_string())?).map_err(|e| format!("from_document(ImDocument) fails: {}", e.message()))?;
+                    if !same_with_spans(&via_doc, s) {
+                        return Err("toml_edit::de::from_document(ImDocument) delivers different spans than from_str".into());
+                    }
                 }
                 (Err(e), Ok(_)) => return Err(format!("wrapping in Spanned makes decoding fail: {}", e.message())),
                 (Ok(_), Err(e)) => return Err(format!("decoding without Spanned fails while with Spanned succeeds: {}", e.message())),
@@ -538,6 +560,8 @@ pub fn c14(tier: Tier) -> i32 {
     rep.assumptions = vec!["refmodel's token extents are correct (they are compared with the real spans on every document, so an error on either side shows)".into()];
     docu::run(&mut rep, tier, &["decor", "stmt", "ctx", "tok", "corpus", "num", "dt"], &c14_eval);
     dt_spanned(&mut rep, tier);
+    // error locations are spans delivered through serde too: the typed mismatch family (shared with C15)
+    crate::c15::typed(&mut rep);
     rep.finish()
 }
 
